@@ -1,6 +1,8 @@
 #!/bin/bash
 # usage: coqgoal.sh file.v LINE  -- compile file truncated before LINE with Show. appended
 f=$1; n=$2
-head -n $((n-1)) "$f" > /tmp/_goal.v
-echo "Show." >> /tmp/_goal.v
-cd /verif/coq && coqc -Q . V /tmp/_goal.v 2>&1 | tail -${3:-60}
+t=$(mktemp /tmp/_goal_XXXXXX.v)
+head -n $((n-1)) "$f" > $t
+echo "Show." >> $t
+cd /verif/coq && coqc -Q . V $t 2>&1 | tail -${3:-60}
+rm -f $t ${t%.v}.vo ${t%.v}.glob ${t%.v}.vok ${t%.v}.vos
